@@ -240,14 +240,41 @@ def run(ctx, rep):
                 return "new"
             if "BufReader" in ty:
                 return "old"
-            # a plain number handed back by a measuring helper: what was it counted on?
+            # a plain number handed back by a measuring helper (Ok(counter.count) through `?`): the counter it was read from
+            def value_root_ty(o_, depth=6):
+                if depth <= 0 or op_place(o_) is None:
+                    return ""
+                rp_ = _root_place(b, o_)
+                if rp_ is None:
+                    return ""
+                tyr = b.local_ty(rp_["l"])
+                if "Sink" in tyr or "BufReader" in tyr:
+                    return tyr
+                outs = []
+                for d_ in [d for d in b.defs().get(rp_["l"], []) if not d[2]["d"]["p"]]:
+                    if d_[1] == "T":
+                        if re.search(r"Try>::branch$|::Try::branch$", callee_name(d_[2])) and d_[2]["a"]:
+                            outs.append(value_root_ty(d_[2]["a"][0], depth - 1))
+                    else:
+                        rv_ = d_[2]["rv"]
+                        if rv_["r"] == "agg" and rv_.get("var") in ("Ok", "Some") and rv_["ops"]:
+                            outs.append(value_root_ty(rv_["ops"][0], depth - 1))
+                        elif rv_["r"] in ("use", "cast") and isinstance(rv_.get("o"), dict):
+                            outs.append(value_root_ty(rv_["o"], depth - 1))
+                outs = [x for x in outs if x]
+                return outs[0] if len(set(outs)) == 1 else ""
+            if o is not None and op_place(o) is not None:
+                tyv = value_root_ty(o)
+                if "Sink" in tyv:
+                    return "new"
+                if "BufReader" in tyv:
+                    return "old"
             if o is not None and op_place(o) is not None:
                 sl = backward_slice(b, o)
                 tys = " ".join(a for c in sl["calls"] for a in c["aty"]) + " ".join(callee_name(c) for c in sl["calls"])
-                if "Sink" in tys or "io::sink" in tys:
-                    return "new"
-                if "BufReader" in tys:
-                    return "old"
+                new_, old_ = ("Sink" in tys or "io::sink" in tys), "BufReader" in tys
+                if new_ != old_:
+                    return "new" if new_ else "old"
             return "?"
         ka, kb = kind(A, ct["a"][0]), kind(B, ct["a"][1])
         rep.check("C10.size", "comparison is between the re-serialised size and the size read", {ka, kb} == {"new", "old"}, loc_of(b, ct), "cmp(%s, %s)" % (ka, kb))
